@@ -139,6 +139,12 @@ def run(tier):
                         defs = json.loads(json.dumps(definitions_schema(**{side: [T]}, version=V, all_refs=c.opts["all_refs"],
                                                                         additional_properties=c.opts["additional_properties"],
                                                                         aliaser=kw["aliaser"])))
+                    except ValueError as e:
+                        if "string-convertible" in str(e):
+                            R.count("refused:non_string_keys")
+                        else:
+                            R.violation(f"definitions_schema({vname}) raised ValueError: {e}", info)
+                        continue
                     except Exception as e:
                         R.violation(f"definitions_schema({vname}) raised {type(e).__name__}: {e}", info)
                         continue
